@@ -297,6 +297,7 @@ type Obligation struct {
 	PC     string
 	Goal   string
 	Expect string // "unsat" (default, proof) or "sat" (cover: must NOT be unsat)
+	KnownFailing bool // listed in known_findings.json: only the short first stage is tried
 	Note   string
 	Alt    string // obligations sharing Alt are alternatives: one discharged alternative suffices
 	Preset bool // decided by a static analysis of the engine, not by a solver
